@@ -14,8 +14,8 @@ def run(rep: Report, tier: str, only=None) -> None:
 			jobs.append(Job('O1+3.terminal', H, 'terminal_law', {'kind': kind, **c}, t, 'S', f'{kind} terminal text <= {n} over {classes!r} (grammar tokenizer symbolic, parser per realised token list)', ('backslash',)))
 	nslots = 14 if thorough else 9
 	for tmpl in range(8):
-		jobs.append(Job('O2.shapes', H, 'shape_law', {'template': tmpl, 'nslots': nslots, 'sentences': thorough or tmpl in (4, 5)}, t, 'F',
-			f'rule template #{tmpl} of 8 with up to three slots over {nslots} sub-expressions (symbol, string, regexp, groups, alternatives, * + ?, [..], nested), three unwrap markers; ' + ('sentence equivalence on 47 short sentences' if (thorough or tmpl in (4, 5)) else 'structural round trip'), ('round_trip',)))
+		jobs.append(Job('O2.shapes', H, 'shape_law', {'template': tmpl, 'nslots': nslots, 'sentences': tmpl in (4, 5)}, t, 'F',
+			f'rule template #{tmpl} of 8 with up to three slots over {nslots} sub-expressions (symbol, string, regexp, groups, alternatives, * + ?, [..], nested), three unwrap markers; ' + ('sentence equivalence on 47 short sentences' if tmpl in (4, 5) else 'structural round trip'), ('round_trip',)))
 	if only:
 		jobs = [j for j in jobs if j.obligation in only or j.obligation.split('.')[0] in only]
 	rep.functions = ['Rules.from_ast / ASTSerializer.*', 'Prettier.*', 'Pattern.make', 'SyntaxParser(gram_rules(), gram_tokenizer()).parse', 'gram_check.App.render_rules', 'ASTTree.pretty/simplify', 'Rules.keywords/unwrap_by/__getitem__']
